@@ -55,6 +55,7 @@ Produce **three different** source changes ("mutants") to the library (files und
     {wt}/mutants/m1/meta.json      {{"property": "{pid}", "summary": "...", "needs_to_manifest": "...", "files": [...], "tests_run": "...", "tests_result": "..."}}
     ... same for m2, m3
 
+Never use `git stash` (it is shared between worktrees of this repository and other people use it).
 Work on one mutant at a time: edit, verify demo fails, run relevant tests, save `git diff > mutants/mK/patch.diff`,
 then `git checkout -- xitorch` to return to the clean tree (the `mutants/` directory is untracked and survives)
 and verify the demo passes on the clean tree. At the very end, for each mutant: apply the patch, run the FULL
